@@ -675,6 +675,9 @@ static Packet lifePacket(Packet pk, unsigned how)
 
 static Packet buildPacket(const MsgSpec& m);
 static thread_local bool g_movedFromReuse = false;
+// ids of the encoder the packets under construction are meant for (set by Enc::encode): a third of the packets carry exactly
+// these in their own device-id / stream-id fields ("own" packets), the others arbitrary ones ("forwarded" packets)
+static thread_local int g_encDev = -1, g_encStream = -1;
 static unsigned lifeOf(const MsgSpec& m)
 {
     // about half of the packets take the plain path
@@ -775,16 +778,21 @@ static Packet buildPacketPlain(const MsgSpec& m)
     pk.setDeviceId(static_cast<uint16_t>(m.junk));
     pk.setStreamId(static_cast<uint8_t>(m.junk >> 16));
     pk.setSequenceCounter(static_cast<uint16_t>(m.junk >> 24));
+    if (g_encDev >= 0 && (m.junk >> 41) % 3 == 0)
+    {
+        pk.setDeviceId(static_cast<uint16_t>(g_encDev));
+        pk.setStreamId(static_cast<uint8_t>(g_encStream));
+    }
     return pk;
 }
 
-PacketRef makePacket(const MsgSpec& m, uint16_t dev, uint8_t stream)
+PacketRef makePacket(const MsgSpec& m, uint16_t dev, uint8_t stream, uint16_t seq)
 {
     preCall();
     auto p = std::make_shared<Packet>(buildPacket(m));
     p->setDeviceId(dev);
     p->setStreamId(stream);
-    p->setSequenceCounter(0);
+    p->setSequenceCounter(seq);
     return std::static_pointer_cast<void>(p);
 }
 
@@ -924,6 +932,8 @@ std::vector<Bytes> Enc::encode(const std::vector<MsgSpec>& batch, size_t minByte
     if (mode == 2 && batch.size() != 1)
         mode = 0;
     ++d->calls;
+    g_encDev = d->obj.getDeviceId();
+    g_encStream = d->obj.getStreamId();
     // every other call goes through long-lived packet objects that were encoded before
     const bool reuse = !batch.empty() && batch.size() <= 64 && (sim::mix64(d->calls * 77 + batch[0].junk) & 1);
     switch (mode)
